@@ -52,7 +52,14 @@ fn instantiate(w: &mut World, genesis: u64, duration: u64) -> Result<Addr, Strin
 
 /// every check of one instance at one block time
 fn check_at(w: &mut World, c: &Addr, g: u64, dur: u64, now: u64, last_id: &mut Option<(u64, u64)>, rep: &mut Reporter) {
-    w.set_time(now);
+    // block times carry nanoseconds: half of the time use a sub-second part (the derived values
+    // are defined on whole seconds and must not depend on it)
+    let sub = (now.wrapping_mul(2_654_435_761) >> 7) % 2_000_000_000;
+    if sub < 1_000_000_000 && now < MAX_SECS {
+        w.set_time_ns(now, sub.max(1));
+    } else {
+        w.set_time(now);
+    }
     let cur = current(w, c);
     let ctx = || json!({"genesis": g.to_string(), "duration": dur.to_string(), "now": now.to_string()});
     let rel = if now < g { "before" } else if (now - g) % dur == 0 { "boundary" } else if (now - g) % dur == dur - 1 { "boundary-1" } else { "inside" };
